@@ -556,11 +556,15 @@ func runC09(c *gen.Ctx) error {
 	bgCtx.R = c.R.Fork()
 	cliStalls := c09StallScenarios(c)
 	c.E.Add("clientstall-scenarios", len(cliStalls))
-	bg.Add(2)
+	bg.Add(3)
 	go func() {
 		defer bg.Done()
 		c09PipeGen(&bgCtx)
 		c09SiteGen(&bgCtx)
+	}()
+	go func() {
+		defer bg.Done()
+		c09SessionGen(c)
 	}()
 	go func() {
 		defer bg.Done()
